@@ -12,7 +12,9 @@ import (
 	"verifextract/ex"
 )
 
-func main() { ex.Main([]string{"EditorKeys.lean", "EditorBodies.lean"}, func(c *ex.Ctx) { gen(c); genBodies(c) }) }
+func main() {
+	ex.Main([]string{"EditorKeys.lean", "EditorBodies.lean", "EditorLang.lean"}, func(c *ex.Ctx) { gen(c); genBodies(c); genLang(c) })
+}
 
 func gen(c *ex.Ctx) {
 	var sb strings.Builder
